@@ -866,6 +866,14 @@ func runSess(c *Sess) error {
 		for len(byTag) > 0 {
 			m, f, err := l.next()
 			if err == errClosed {
+				for _, p := range byTag {
+					if p.want != nil && len(p.want) > int(l.M) {
+						// the statement does not say how an answer that cannot be
+						// sent is refused; dropping the peer sends nothing too long
+						hx.Label("connection dropped for an unsendable answer")
+						return nil
+					}
+				}
 				return violf("round %d: the server closed the connection with %d of %d requests unanswered (negotiated msize %d, 9P2000.u=%v)", ri, len(byTag), len(ps), l.M, l.dotu)
 			}
 			if err != nil {
